@@ -5,6 +5,13 @@ MA = "trace_handlers/mach.py"
 PF = "trace_handlers/perf.py"
 DY = "trace_handlers/dyld.py"
 MUTANTS = [
+    F("C11", "protection byte shifted out without its mask", MA,
+      "    caller_prot = to_vm_prot((args[1] >> 8) & 0xff)\n", "    caller_prot = to_vm_prot(args[1] >> 8)\n", "R7"),
+    F("C11", "fault type mask one bit too wide", MA,
+      "    fault_type = DbgVmFaultType(args[1] & 0xff)\n", "    fault_type = DbgVmFaultType(args[1] & 0x1ff)\n", "R7"),
+    N("C11", "user tag peeled off by two successive shifts", MA,
+      "    return addr_type(events, args[0], args[1] >> 16, caller_prot, fault_type, args[2], args[3])",
+      "    rest = args[1] >> 8\n    return addr_type(events, args[0], rest >> 8, caller_prot, fault_type, args[2], args[3])"),
     F("C11", "one enum value changed", B, "    O_NOFOLLOW = 0x0100\n", "    O_NOFOLLOW = 0x0080\n", "R1"),
     F("C11", "AST bit changed", MA, "    AST_KPERF = 0x100\n", "    AST_KPERF = 0x1000000\n", "R1"),
     F("C11", "& -> == in a comprehension", MA, "return [s for s in ThreadState if s.value & flags]", "return [s for s in ThreadState if s.value == flags]", None),
